@@ -55,7 +55,7 @@ UFUNCS = {"exp": exp, "log": log, "sqrt": sqrt, "tanh": tanh, "arctanh": arctanh
 
 def _sym_array_ufunc(self, ufunc, method, *inputs, **kw):
     f = UFUNCS.get(ufunc.__name__)
-    if method != "__call__" or f is None:
+    if method != "__call__" or f is None or any(isinstance(x, numpy.ndarray) for x in inputs):
         return NotImplemented
     return f(*inputs)
 
